@@ -114,6 +114,33 @@ SUMMARY = {
     "S10_1": "borrowed handle: asend/athrow disabled only when the iterator has `athrow`",
     "S10_2": "`ScopedIter` swallows an AttributeError raised by the source's `aclose`",
     "S10_3": "`sync()` commits to the flavour of the first result",
+    "T02_1": "`sorted(key)` sorts (key, position, item) tuples: keys whose `==` disagrees with `<` change the order or raise",
+    "T02_2": "`tuple()` returns a tuple-subclass argument uncopied",
+    "T02_3": "`dict(pairs, **kw)`: a duplicate key in the pairs that is also a keyword takes the pair's value",
+    "T03_1": "`cycle` reuses a list argument as its replay buffer (caller mutates it while cycling)",
+    "T03_2": "`batched` assembles batches in a module-level scratch list (nested / interleaved batched)",
+    "T03_3": "`islice` compares its skip counter with `is` (start >= 257 never reached)",
+    "T04_1": "`tee`: `lock or NoLock()` replaces a falsy lock by the dummy lock",
+    "T04_2": "`chain` splices a nested chain argument that was already partly consumed",
+    "T04_3": "`tee` fast path for list sources: each child iterates the list independently (list mutated meanwhile)",
+    "T05_1": "groupby stores the pulled item before its key is computed (a failing key leaves it pending)",
+    "T05_2": "groupby skip loop compares against the key current at scan start (non-transitive key equality)",
+    "T05_3": "closing a stale group detaches the live group",
+    "T06_1": "`merge` builds its heap incrementally (a raising comparison surfaces before later sources are pulled)",
+    "T06_2": "`merge` drops exhausted iterators by heap rank instead of position (an empty source shifts the index)",
+    "T06_3": "`nsmallest` reverses int/float keys by negation and others by wrapper (mixed key types incomparable)",
+    "T07_1": "the disabled cache (maxsize <= 0) hashes its arguments",
+    "T07_2": "`CallKey.__eq__` loses the identity shortcut (the same NaN object misses)",
+    "T07_3": "keyword order normalised in the call key",
+    "T08_1": "cached_property awaits an awaitable cached VALUE on the fallback path",
+    "T08_2": "`CachedProperty.__get__` uses setdefault (an overriding property awaiting super() recurses / deadlocks)",
+    "T08_3": "placeholder holds its instance weakly (`await Resource().data` raises ReferenceError)",
+    "T09_1": "contextmanager tests truthiness of the exception (`if not exc_val`): falsy exception instances",
+    "T09_2": "ExitStack skips re-raising the block's own exception object after an inner suppression",
+    "T09_3": "generator manager deletes its recreation arguments after a direct enter (as the stdlib does) - see note",
+    "T10_1": "`ScopedIter.__aexit__` returns the value of the source's `aclose()` (truthy => exception suppressed)",
+    "T10_2": "`force_async` awaits awaitable results of a sync callable on later calls (awaitable data)",
+    "T10_3": "`sync()`: `if not result or not isinstance(result, Awaitable)` (falsy awaitable, raising `__bool__`)",
 }
 
 
